@@ -1,13 +1,52 @@
-"""C13 — address text forms round-trip; friendly-form checksum enforced."""
+"""C13 — address text forms round-trip; friendly-form checksum enforced; equal addresses hash equally.
+
+What is generated (see RULE) and what is asserted:
+  * round trip (check_roundtrip): rendering equals the independent TEP-2 reference character for character, both text forms parse
+    back into an equal address with the same flags, equal addresses hash equally / collapse in sets, whatever was rendered before.
+    The enumerated part also contains DESIGNED addresses whose 48 friendly characters are all hexadecimal digits (a text that is
+    well-formed under two readings: base64 and a hex number).
+  * substitutions (check_subst): every single-character replacement is rejected (any exception).
+  * origins (check_origins): the statement's "equal addresses hash equally" does not say where the address objects came from.
+    The same (workchain, account) is obtained in every way the library hands out an Address - tuple, raw text, friendly text with
+    these and with the opposite flags, Address(Address), Slice.load_address() of addr_std without and WITH an anycast prefix,
+    to_cell()/store_address() and back, set_anycast() on a built / parsed address, a subclass instance, copy.deepcopy / pickle,
+    an object that was printed - and every two of them that compare == must hash equally and be one key of a set / dict; each of
+    them renders as the reference says and its text parses back into an address equal to it (both directions) with the same hash.
+    An origin that cannot be built (exception in Builder / Slice) or that does not compare == to the tuple-built address is left
+    out: cells are other properties' business, and the statement only speaks about EQUAL addresses.
+  * histories (check_history): the case carries a list of earlier, sloppy-but-accepted or failing uses of the class in the same
+    process - an account id that is not 32 bytes long (the constructor takes any length) rendered / printed / hashed / stored,
+    a workchain outside int8, texts that are rejected (bad checksum, truncated, extended, the text of an odd-length account,
+    garbage, non-strings), to_str with non-boolean flags, set_anycast, a parsed result whose attributes the caller edited.
+    Results and exceptions of those uses are ignored (none of them is promised anything). After EVERY step the valid address of
+    the case must still round-trip in all 8 variants + raw form (fresh objects and two objects made before the history), and the
+    complete round-trip check runs at the end.  Signature = kind of the step after which it stopped holding + violated clause.
+
+Deliberately NOT asserted: anything about addresses whose account id is not 32 bytes or whose workchain is outside -128..127
+(only that using them does not disturb valid ones); that a text which is not a rendering of an address (e.g. 48 x 'A') is
+rejected; which exception type a rejected text raises; the cell form of an address (C-properties on Builder/Slice).
+"""
+import hashlib
+
 from hypothesis import strategies as st
-from harness.core import Sub, Fail, call
+from harness.core import Sub, Fail, call, describe, look, scramble
 from harness.ref import refaddr
 
 RULE = ('case = (workchain -128..127, 32-byte account id, bounceable, test_only, url_safe) and, for substitution '
         'cases, (position 0..47, replacement character of the base64 alphabet in use). round-trip sub-check covers all '
-        '256 workchains x 8 variants; substitution sub-check enumerates all 48x63 single-character replacements of a '
-        'generated address. non-trivial = non-default flags, negative workchain, or a substitution; distinct = distinct case')
-ASSUMPTIONS = ['harness/ref/refaddr.py (TEP-2 rendering) and refcrc bitwise CRC-16; python base64']
+        '256 workchains x 8 variants plus designed addresses whose friendly text consists of hex digits only; substitution '
+        'sub-check enumerates all 48x63 single-character replacements of generated addresses (one of them all-hex). '
+        'origins cases add (anycast depth 1..30, prefix < 2^depth): the same address obtained through ~20 origins (tuple, raw / '
+        'friendly text, copy, load_address with and without anycast, to_cell/store_address and back, set_anycast, subclass, '
+        'deepcopy, pickle, printed) - pairwise ==/hash/set/dict agreement and text round trip of each. history cases add a list '
+        'of 0..4 earlier uses (odd-length account ids 0..70 bytes, workchains outside int8, rejected texts, non-boolean flags, '
+        'anycast, edited parse results; each with 1..3 follow-up uses: friendly/raw/repr/hash/eq/cell/reparse/copy/tl) after each '
+        'of which the valid address must still round-trip; the grid part enumerates every single-step history over all '
+        'lengths 0..40, 48, 64 x (tuple, raw text, edited parse result) x use. non-trivial = non-default flags, negative '
+        'workchain, a substitution, an anycast prefix or a non-empty history; distinct = distinct case')
+ASSUMPTIONS = ['harness/ref/refaddr.py (TEP-2 rendering) and refcrc bitwise CRC-16; python base64',
+               'origins: Builder.store_bits/store_bit/store_uint/store_int/store_bytes and Slice.load_address only PRODUCE '
+               'address objects (an origin that fails to build or is not == to the tuple-built address is skipped, not reported)']
 
 STD = 'ABCDEFGHIJKLMNOPQRSTUVWXYZabcdefghijklmnopqrstuvwxyz0123456789+/'
 URL = STD[:62] + '-_'
@@ -131,16 +170,364 @@ def check_subst(case):
     return None
 
 
+# ------------------------------------------------------------------------------------------------ origins of an address object
+def _origins(case, Address, Builder):
+    """(name, constructor) of every way the library hands out an address object for (wc, acc)"""
+    import copy
+    import pickle
+    wc, acc = case['wc'], bytes.fromhex(case['acc'])
+    b, t, u = case['bounce'], case['test'], case['url']
+    d, pfx = case['depth'], case['pfx']
+    rawt, fr = refaddr.raw(wc, acc), refaddr.friendly(wc, acc, b, t, u)
+
+    class Derived(Address):
+        pass
+
+    def cell(anycast):
+        bld = Builder().store_bits('10')      # addr_std$10 anycast:(Maybe Anycast) workchain_id:int8 address:bits256
+        bld = bld.store_bit(1).store_uint(d, 5).store_uint(pfx, d) if anycast else bld.store_bit(0)
+        return bld.store_int(wc, 8).store_bytes(acc).end_cell()
+
+    def anyc(a):
+        a.set_anycast(d, pfx)
+        return a
+
+    def printed(a):
+        describe(a)
+        return a
+
+    return [
+        ('tuple', lambda: Address((wc, acc))),
+        ('raw-text', lambda: Address(rawt)),
+        ('friendly-text', lambda: Address(fr)),
+        ('friendly-text-opposite-flags', lambda: Address(refaddr.friendly(wc, acc, not b, not t, not u))),
+        ('copy-of-parsed', lambda: Address(Address(fr))),
+        ('loaded-from-cell', lambda: cell(False).begin_parse().load_address()),
+        ('loaded-from-cell-with-anycast', lambda: cell(True).begin_parse().load_address()),
+        ('to_cell-and-back', lambda: Address((wc, acc)).to_cell().begin_parse().load_address()),
+        ('text-stored-and-loaded', lambda: Builder().store_address(fr).end_cell().begin_parse().load_address()),
+        ('anycast-stored-and-loaded', lambda: anyc(Address(fr)).to_cell().begin_parse().load_address()),
+        ('set_anycast-on-built', lambda: anyc(Address((wc, acc)))),
+        ('set_anycast-on-parsed', lambda: anyc(Address(fr))),
+        ('set_anycast-on-raw-parsed', lambda: anyc(Address(rawt))),
+        ('copy-of-anycast', lambda: Address(anyc(Address(rawt)))),
+        ('subclass-built', lambda: Derived((wc, acc))),
+        ('subclass-parsed', lambda: Derived(fr)),
+        ('copy-of-subclass', lambda: Address(Derived(rawt))),
+        ('deepcopy', lambda: copy.deepcopy(Address(fr))),
+        ('deepcopy-of-anycast', lambda: copy.deepcopy(anyc(Address((wc, acc))))),
+        ('pickled', lambda: pickle.loads(pickle.dumps(Address(fr)))),
+        ('pickled-anycast', lambda: pickle.loads(pickle.dumps(anyc(Address(rawt))))),
+        ('printed', lambda: printed(Address(fr))),
+        ('printed-anycast', lambda: printed(anyc(Address((wc, acc))))),
+    ]
+
+
+def check_origins(case):
+    from pytoniq_core.boc.address import Address
+    from pytoniq_core.boc.builder import Builder
+    wc, acc = case['wc'], bytes.fromhex(case['acc'])
+    b, t, u = case['bounce'], case['test'], case['url']
+    exp, rawt = refaddr.friendly(wc, acc, b, t, u), refaddr.raw(wc, acc)
+    ref_obj = Address((wc, acc))
+    objs = []
+    for name, mk in _origins(case, Address, Builder):
+        ok, a = call(mk)
+        if not ok or not isinstance(a, Address):
+            continue                                     # cannot be obtained this way: nothing to compare
+        ok, same = call(lambda: bool(a == ref_obj) and bool(ref_obj == a))
+        if not ok or not same or a.wc != wc or a.hash_part != acc:
+            continue                                     # not an EQUAL address: the statement does not speak about it
+        objs.append((name, a))
+    # every two equal addresses: ==, hash, set, dict
+    hs = []
+    for name, a in objs:
+        ok, h = call(hash, a)
+        if not ok:
+            return Fail(f'hash/raises/{name}', repr(h))
+        hs.append(h)
+    for i, (n1, a1) in enumerate(objs):
+        for j, (n2, a2) in enumerate(objs):
+            if j <= i:
+                continue
+            ok, eq = call(lambda: bool(a1 == a2) and bool(a2 == a1))
+            if not ok or not eq:
+                continue
+            kind = 'anycast' if (a1.anycast is None) != (a2.anycast is None) else 'subclass' if type(a1) is not type(a2) else 'plain'
+            if hs[i] != hs[j]:
+                return Fail(f'hash/equal-addresses-hash-differently/{kind}',
+                            f'{exp}: address from {n1} == address from {n2}, hashes {hs[i]} != {hs[j]}')
+            ok, found = call(lambda: (a1 in {a2}) and (a2 in {a1}) and {a1: 1}.get(a2) == 1 and len({a1, a2}) == 1)
+            if not ok or not found:
+                return Fail(f'hash/set-does-not-collapse/{kind}', f'{exp}: {n1} vs {n2}: {found!r}')
+    # each of them renders as the reference says; its text parses into an address equal to IT, with the same hash and the flags
+    for (name, a), h in zip(objs, hs):
+        kind = 'anycast' if a.anycast is not None else 'subclass' if type(a) is not Address else 'plain'
+        ok, txt = call(a.to_str, True, u, b, t)
+        if not ok or txt != exp:
+            return Fail(f'to_str/friendly-differs-from-TEP2/{kind}-origin', f'address from {name}: {txt!r} != {exp}')
+        ok, txt = call(a.to_str, False)
+        if not ok or txt != rawt:
+            return Fail(f'to_str/raw-differs/{kind}-origin', f'address from {name}: {txt!r} != {rawt}')
+        for form, text in (('friendly', exp), ('raw', rawt)):
+            ok, back = call(Address, text)
+            if not ok:
+                return Fail(f'parse/{form}-rejected', f'{text}: {back!r}')
+            ok, eq = call(lambda: bool(back == a) and bool(a == back))
+            if not ok or not eq:
+                return Fail(f'parse/{form}-not-equal/{kind}-origin', f'{text} parsed is not == the address from {name} it was rendered from')
+            ok, h2 = call(hash, back)
+            if not ok or h2 != h or not (back in {a}) or {a: 1}.get(back) != 1:
+                return Fail(f'hash/equal-addresses-hash-differently/{kind}',
+                            f'address from {name} rendered as {text} and parsed back: equal, but hashes {h} != {h2!r}')
+            if form == 'friendly' and (bool(back.is_bounceable) != b or bool(back.is_test_only) != t):
+                return Fail('parse/flags-lost', f'{text}: bounceable={back.is_bounceable} test_only={back.is_test_only}')
+    return None
+
+
+# -------------------------------------------------------------------------------- histories: earlier uses in the same process
+USES = ('friendly', 'raw', 'repr', 'hash', 'eq', 'cell', 'reparse', 'copy', 'tl')
+ODD_WCS = (128, 255, 256, -129, -256, 1000, 2 ** 31, 2 ** 63, 2 ** 64, -2 ** 63 - 1)
+SLOPPY = (None, 0, 1, 2, -1, '', 'no', [], 0.5)
+BAD_KINDS = ('crc', 'truncated', 'extended', 'padded', 'odd-account-text', 'garbage', 'nonstr', 'raw-odd', 'raw-nohash', 'raw-case',
+             'bare-hex')
+EDITS = ('scramble', 'account-longer', 'account-shorter', 'account-empty', 'account-bytearray', 'wc', 'flags', 'anycast')
+
+
+def _use(a, uses, v, Address, other):
+    """what a caller does with an address object it holds; results and exceptions are nobody's business here"""
+    b, t, u = bool(v & 1), bool(v & 2), bool(v & 4)
+    for w in uses:
+        if w == 'friendly':
+            call(a.to_str, True, u, b, t)
+        elif w == 'raw':
+            call(a.to_str, False)
+        elif w == 'repr':
+            look(a)
+        elif w == 'hash':
+            call(lambda: ({a: 1}, {a}, hash(a)))
+        elif w == 'eq':
+            call(lambda: (a == other, other == a, a != other))
+        elif w == 'cell':
+            ok, c = call(a.to_cell)
+            if ok:
+                call(lambda: c.begin_parse().load_address())
+        elif w == 'reparse':
+            for uf in (True, False):
+                ok, txt = call(a.to_str, uf, u, b, t)
+                if ok:
+                    call(Address, txt)
+        elif w == 'copy':
+            ok, c = call(Address, a)
+            if ok:
+                call(c.to_str, True, u, b, t)
+        elif w == 'tl':
+            call(a.to_tl_account_id)
+
+
+def _bad_text(op, wc, acc):
+    k, n, s = op['kind'], op['n'], op['s']
+    good = refaddr.friendly(wc, acc, bool(n & 1), bool(n & 2), bool(n & 4))
+    if k == 'crc':
+        alpha = URL if n & 4 else STD
+        pos = 45 + n % 3
+        return good[:pos] + alpha[(alpha.index(good[pos]) + 1 + n % 62) % 64] + good[pos + 1:]
+    if k == 'truncated':
+        return good[:n % 48]
+    if k == 'extended':
+        return good + s
+    if k == 'padded':
+        return good + '=' * (1 + n % 4)
+    if k == 'odd-account-text':            # what to_str gives for an account id that is not 32 bytes long
+        ln = n % 71
+        return refaddr.friendly(wc, (acc * 3)[:ln if ln != 32 else 33], True, False, True)
+    if k == 'garbage':
+        return s
+    if k == 'nonstr':
+        return (None, n, acc, [good], 1.5, (wc,), (wc, acc.hex()), {'workchain': wc})[n % 8]
+    if k == 'raw-odd':
+        return f'{wc}:{(acc * 3)[:n % 71].hex()}' + ('0' if n & 128 else '')
+    if k == 'raw-nohash':
+        return (f'{wc}:', ':', f':{acc.hex()}', f'{wc}:{acc.hex()}:', f'{wc}:{acc.hex()}:0', f'0x{wc}:{acc.hex()}', f'{wc}.0:{acc.hex()}',
+                f'{wc}:0x{acc.hex()[2:]}')[n % 8]
+    if k == 'raw-case':
+        return (f' {wc}:{acc.hex()}', f'{wc}:{acc.hex().upper()}', f'{wc}: {acc.hex()}', f'{wc}:{acc.hex()}\n', f'+{wc}:{acc.hex()}',
+                f'{wc}:{acc.hex()[:-1]}_{acc.hex()[-1]}')[n % 6]
+    if k == 'bare-hex':
+        return (acc.hex(), acc.hex().upper(), '0x' + acc.hex(), acc.hex()[:48], acc.hex().lstrip('0') or '0', s)[n % 6]
+    raise AssertionError(k)
+
+
+def _step_kind(op):
+    k = op['op']
+    if k == 'odd-account':
+        return 'account-longer-than-32' if op['len'] > 32 else 'account-shorter-than-32'
+    if k == 'bad-text':
+        return 'rejected-text:' + op['kind']
+    if k == 'edit-result':
+        return 'edited-parse-result:' + op['how']
+    return k
+
+
+def _run_step(op, ctx):
+    Address, wc, acc = ctx['Address'], ctx['wc'], ctx['acc']
+    k = op['op']
+    owc = op.get('wc', wc)
+    other_acc = hashlib.sha256(acc + b'other').digest()
+    other = Address((wc, other_acc))
+    if k == 'odd-account':
+        oa = (bytes([op['fill']]) + acc * 3)[:op['len']]
+        if op['via'] == 'tuple':
+            ok, a = call(Address, (owc, oa))
+        elif op['via'] == 'raw':
+            ok, a = call(Address, f'{owc}:{oa.hex()}')
+        else:                                  # the caller assigns to the public attribute of an address it parsed
+            ok, a = call(Address, ctx['texts'][op['v']])
+            if ok:
+                a.hash_part = oa
+        if ok:
+            _use(a, op['use'], op['v'], Address, other)
+    elif k == 'odd-wc':
+        w = ODD_WCS[op['i'] % len(ODD_WCS)]
+        ok, a = call(Address, (w, acc)) if op['via'] == 'tuple' else call(Address, f'{w}:{acc.hex()}')
+        if ok:
+            _use(a, op['use'], op['v'], Address, other)
+    elif k == 'bad-text':
+        src = (wc, acc) if op['of'] == 'same' else (owc, other_acc)
+        ok, a = call(Address, _bad_text(op, *src))
+        if ok and isinstance(a, Address):
+            _use(a, op['use'], op['v'], Address, other)
+    elif k == 'sloppy-flags':
+        target = ctx['pb'] if op['of'] == 'same' else other
+        args = [True, True, True, False]
+        args[op['pos'] % 4] = SLOPPY[op['i'] % len(SLOPPY)]
+        call(target.to_str, *args)
+        call(lambda: target.to_str(is_user_friendly=args[0], is_url_safe=args[1], is_bounceable=args[2], is_test_only=args[3]))
+    elif k == 'anycast':
+        target = {'same': ctx['pb'], 'parsed': ctx['pp']}.get(op['of'], other)
+        call(target.set_anycast, op['depth'], op['pfx'])
+        _use(target, op['use'], op['v'], Address, other)
+    elif k == 'edit-result':
+        # what a parser returns belongs to the caller: edit it, use it - a later parse of the same text is a fresh result
+        text = ctx['texts'][op['v']] if op['of'] == 'same' else refaddr.raw(wc, acc) if op['of'] == 'same-raw' else \
+            refaddr.friendly(owc, other_acc, True, False, True)
+        ok, a = call(Address, text)
+        if ok:
+            how = op['how']
+            if how == 'scramble':
+                scramble(a)
+            elif how == 'account-longer':
+                a.hash_part = a.hash_part + b'\x00' * (1 + op['v'])
+            elif how == 'account-shorter':
+                a.hash_part = a.hash_part[:31 - op['v']]
+            elif how == 'account-empty':
+                a.hash_part = b''
+            elif how == 'account-bytearray':
+                a.hash_part = bytearray(a.hash_part)
+                a.hash_part[op['v']] ^= 0xFF
+            elif how == 'wc':
+                a.wc = ODD_WCS[op['v'] % len(ODD_WCS)] if op['v'] & 1 else (a.wc + 1 + op['v']) % 128
+            elif how == 'flags':
+                a.is_bounceable, a.is_test_only = not a.is_bounceable, SLOPPY[op['v'] % len(SLOPPY)]
+            elif how == 'anycast':
+                a.set_anycast(1 + op['v'], op['v'] & 1)
+            _use(a, op['use'], op['v'], Address, other)
+    elif k == 'printed':
+        describe(ctx['pb'], ctx['pp'], other)
+    else:
+        raise AssertionError(k)
+
+
+def _still_round_trips(ctx):
+    """(clause, detail) when the valid address of the case does not round-trip (all 8 variants + raw form), else None"""
+    Address, wc, acc, texts, rawt = ctx['Address'], ctx['wc'], ctx['acc'], ctx['texts'], ctx['rawt']
+    ok, base = call(Address, (wc, acc))
+    if not ok:
+        return 'construct/raises', repr(base)
+    ok, txt = call(base.to_str, False)
+    if not ok or txt != rawt:
+        return 'to_str/raw-differs', f'{txt!r} != {rawt}'
+    ok, q = call(Address, rawt)
+    if not ok:
+        return 'parse/raw-rejected', f'{rawt}: {q!r}'
+    if not (q.wc == wc and q.hash_part == acc and q == base and base == q and hash(q) == hash(base)):
+        return 'parse/raw-not-equal', f'{rawt} -> wc={q.wc} hash={q.hash_part!r}'
+    for v in range(8):
+        b, t, u = bool(v & 1), bool(v & 2), bool(v & 4)
+        for who, obj in (('a new object', base), ('an object built before', ctx['pb']), ('an object parsed before', ctx['pp']),
+                         ('the object just parsed from raw form', q)):
+            ok, txt = call(obj.to_str, True, u, b, t)
+            if not ok or txt != texts[v]:
+                return 'to_str/friendly-differs-from-TEP2', f'{who}: {txt!r} != {texts[v]}'
+        ok, p = call(Address, texts[v])
+        if not ok:
+            return 'parse/friendly-rejected', f'{texts[v]}: {p!r}'
+        if not (p.wc == wc and p.hash_part == acc and p == base and base == p and p == ctx['pp']):
+            return 'parse/friendly-not-equal', f'{texts[v]} -> wc={p.wc} hash={p.hash_part!r}'
+        if bool(p.is_bounceable) != b or bool(p.is_test_only) != t:
+            return 'parse/flags-lost', f'{texts[v]}: bounceable={p.is_bounceable!r} test_only={p.is_test_only!r}'
+        if len({hash(p), hash(base), hash(ctx['pb']), hash(ctx['pp'])}) != 1 or len({p, base, ctx['pb'], ctx['pp'], q}) != 1:
+            return 'hash/equal-addresses-hash-differently', f'{texts[v]}'
+    return None
+
+
+def check_history(case):
+    from pytoniq_core.boc.address import Address
+    wc, acc = case['wc'], bytes.fromhex(case['acc'])
+    texts = [refaddr.friendly(wc, acc, bool(v & 1), bool(v & 2), bool(v & 4)) for v in range(8)]
+    v0 = int(case['bounce']) | int(case['test']) << 1 | int(case['url']) << 2
+    ctx = {'Address': Address, 'wc': wc, 'acc': acc, 'texts': texts, 'rawt': refaddr.raw(wc, acc)}
+    ok, ctx['pb'] = call(Address, (wc, acc))
+    ok2, ctx['pp'] = call(Address, texts[v0])
+    if not ok or not ok2:
+        return Fail('parse/friendly-rejected' if ok else 'construct/raises', f'before any step of the history: {ctx["pp"]!r} {ctx["pb"]!r}')
+    bad = _still_round_trips(ctx)
+    if bad:      # nothing of this case has run yet: an earlier case's history is still in the process, or it never held
+        return Fail(f'before-history/{bad[0]}', f'before the first step of this history: {bad[1]}')
+    for i, op in enumerate(case['history']):
+        _run_step(op, ctx)
+        bad = _still_round_trips(ctx)
+        if bad:
+            return Fail(f'after-{_step_kind(op)}/{bad[0]}', f'{wc}:{acc.hex()} after step {i} {op}: {bad[1]}')
+    res = check_roundtrip(case)
+    if res is not None:
+        kinds = sorted({_step_kind(op) for op in case['history']})
+        return Fail(f'after-history/{res.signature}', f'history kinds {kinds}: {res.detail}')
+    return None
+
+
 _acc = st.one_of(st.binary(min_size=32, max_size=32),
                  st.sampled_from([b'\x00' * 32, b'\xff' * 32, b'\x00' * 31 + b'\x01', b'\x80' + b'\x00' * 31]))
 
 
+HEXCH = '0123456789abcdefABCDEF'
+
+
+def allhex_addresses(n):
+    """designed coincidence of the two text forms: addresses whose 48 friendly characters are all hexadecimal digits (tag + workchain
+    give 'E'/'0' + 'a'..'f': bounceable or test-only non-bounceable, workchain -96..-1; account characters picked from the hex
+    digits, retried until the three checksum characters are hex digits too). Deterministic."""
+    import base64
+    out, k = [], 0
+    while len(out) < n:
+        h = hashlib.sha512(b'allhex%d' % k).digest()
+        k += 1
+        bounce = bool(h[0] & 1)
+        head = ('E' if bounce else '0') + 'abcdef'[h[1] % 6] + ''.join(HEXCH[x % 22] for x in h[2:46])
+        body = base64.b64decode(head + 'AA')[:34]
+        wc = int.from_bytes(body[1:2], 'big', signed=True)
+        text = refaddr.friendly(wc, body[2:], bounce, not bounce, True)
+        if all(c in HEXCH for c in text):
+            out.append({'wc': wc, 'acc': body[2:].hex(), 'bounce': bounce, 'test': not bounce, 'url': bool(len(out) & 1)})
+    return out
+
+
 def enum_roundtrip(tier):
-    import hashlib
     for wc in range(-128, 128):
         for v in range(8):
             acc = hashlib.sha256(b'acc%d/%d' % (wc, v)).digest()
             yield {'wc': wc, 'acc': acc.hex(), 'bounce': bool(v & 1), 'test': bool(v & 2), 'url': bool(v & 4)}
+    yield from allhex_addresses(24 if tier == 'quick' else 400)
 
 
 def strat_roundtrip(tier):
@@ -149,12 +536,14 @@ def strat_roundtrip(tier):
 
 
 def enum_subst(tier):
-    import hashlib
     n_addr = 6 if tier == 'quick' else 400
+    bases = []
     for k in range(n_addr):
         h = hashlib.sha256(b'subst%d' % k).digest()
-        base = {'wc': h[0] - 128, 'acc': hashlib.sha256(h).hexdigest(), 'bounce': bool(k & 1), 'test': bool(k & 2),
-                'url': bool(k & 4)}
+        bases.append({'wc': h[0] - 128, 'acc': hashlib.sha256(h).hexdigest(), 'bounce': bool(k & 1), 'test': bool(k & 2),
+                      'url': bool(k & 4)})
+    bases[1:1] = allhex_addresses(2 if tier == 'quick' else 40)     # texts that are also well-formed hexadecimal numbers
+    for base in bases:
         text = refaddr.friendly(base['wc'], bytes.fromhex(base['acc']), base['bounce'], base['test'], base['url'])
         alpha = URL if base['url'] else STD
         for pos in range(48):
@@ -170,24 +559,132 @@ def strat_subst(tier):
                                   'repl': st.integers(0, 63)})
 
 
+def _base(k, salt=b'b'):
+    """k-th deterministic valid address + variant: workchains cycle through the boundaries first"""
+    h = hashlib.sha256(salt + b'%d' % k).digest()
+    wc = (0, -1, 127, -128, 1, -2)[k % 8] if k % 8 < 6 else h[0] - 128
+    return {'wc': wc, 'acc': hashlib.sha256(h).hexdigest(), 'bounce': bool(k & 1), 'test': bool(k & 2), 'url': bool(k & 4)}
+
+
+def enum_origins(tier):
+    k = 0
+    for d in range(1, 31):
+        for pfx in sorted({0, 1, (1 << d) - 1, (1 << d) >> 1, 0x2AAAAAAA & ((1 << d) - 1)}):
+            k += 1
+            yield dict(_base(k, b'o'), depth=d, pfx=pfx)
+    for i, a in enumerate(allhex_addresses(4)):
+        yield dict(a, depth=1 + i, pfx=1)
+
+
+def strat_origins(tier):
+    return st.integers(1, 30).flatmap(lambda d: st.fixed_dictionaries({
+        'wc': st.integers(-128, 127), 'acc': _acc.map(bytes.hex), 'bounce': st.booleans(), 'test': st.booleans(),
+        'url': st.booleans(), 'depth': st.just(d), 'pfx': st.integers(0, (1 << d) - 1)}))
+
+
+ODD_LENS = [n for n in range(0, 41) if n != 32] + [48, 64]
+
+
+def enum_history(tier):
+    """every single-step history of the grid, then designed two-step ones (grow, then shrink back)"""
+    k = 0
+
+    def case(*ops):
+        nonlocal k
+        k += 1
+        return dict(_base(k, b'h'), history=list(ops))
+    for ln in ODD_LENS:
+        for via in ('tuple', 'raw', 'edit'):
+            for use in (['friendly'], ['repr'], ['reparse', 'hash'], ['copy', 'cell', 'raw']):
+                yield case({'op': 'odd-account', 'len': ln, 'fill': ln * 7 % 256, 'wc': (0, -1, 5)[k % 3], 'via': via, 'use': use, 'v': k % 8})
+    for i in range(len(ODD_WCS)):
+        for via in ('tuple', 'raw'):
+            for use in (['friendly'], ['repr', 'hash'], ['raw', 'reparse', 'cell']):
+                yield case({'op': 'odd-wc', 'i': i, 'via': via, 'use': use, 'v': k % 8})
+    for kind in BAD_KINDS:
+        for n in range(8):
+            yield case({'op': 'bad-text', 'kind': kind, 'n': n * 37 + (n << 5) % 256, 's': ('', 'A', '====', 'AAAA', ':', 'ff', '0' * 64, 'EQ')[n],
+                        'of': ('same', 'other')[n & 1], 'wc': n - 4, 'use': ['friendly', 'repr'], 'v': n})
+    for i in range(len(SLOPPY)):
+        for pos in range(4):
+            yield case({'op': 'sloppy-flags', 'of': ('same', 'other')[(i + pos) & 1], 'pos': pos, 'i': i})
+    for how in EDITS:
+        for of in ('same', 'same-raw', 'other'):
+            for use in (['friendly'], ['repr', 'hash', 'eq'], ['reparse', 'copy', 'tl']):
+                yield case({'op': 'edit-result', 'how': how, 'of': of, 'wc': 3, 'use': use, 'v': k % 8})
+    for of in ('same', 'parsed', 'other'):
+        for d, pfx in ((1, 1), (5, 0), (30, 0x3FFFFFFF), (0, 0), (31, 1), (3, 9)):
+            yield case({'op': 'anycast', 'of': of, 'depth': d, 'pfx': pfx, 'use': ['repr', 'hash', 'cell'], 'v': k % 8})
+    yield case({'op': 'printed'})
+    yield case()
+    for l1, l2 in ((33, 31), (31, 33), (64, 0), (0, 64), (33, 33), (34, 30)):
+        for use in (['friendly'], ['repr']):
+            yield case({'op': 'odd-account', 'len': l1, 'fill': 1, 'wc': 0, 'via': 'tuple', 'use': use, 'v': 0},
+                       {'op': 'odd-account', 'len': l2, 'fill': 2, 'wc': 0, 'via': 'raw', 'use': use, 'v': 5})
+
+
+def strat_history(tier):
+    uses = st.lists(st.sampled_from(USES), min_size=1, max_size=3)
+    v = st.integers(0, 7)
+    wc = st.integers(-128, 127)
+    via3 = st.sampled_from(['tuple', 'raw', 'edit'])
+    ln = st.one_of(st.sampled_from([31, 33, 0, 1, 34, 36, 64]), st.integers(0, 70)).filter(lambda n: n != 32)
+    text = st.one_of(st.text(alphabet=STD + '-_=: ', max_size=60), st.sampled_from(['', '=', 'AAAA', ':', '0:', '-1:', 'ff' * 32]))
+    ops = st.one_of(
+        st.fixed_dictionaries({'op': st.just('odd-account'), 'len': ln, 'fill': st.integers(0, 255), 'wc': wc, 'via': via3, 'use': uses, 'v': v}),
+        st.fixed_dictionaries({'op': st.just('odd-account'), 'len': ln, 'fill': st.integers(0, 255), 'wc': wc, 'via': via3, 'use': uses, 'v': v}),
+        st.fixed_dictionaries({'op': st.just('odd-wc'), 'i': st.integers(0, len(ODD_WCS) - 1), 'via': st.sampled_from(['tuple', 'raw']),
+                               'use': uses, 'v': v}),
+        st.fixed_dictionaries({'op': st.just('bad-text'), 'kind': st.sampled_from(BAD_KINDS), 'n': st.integers(0, 255), 's': text,
+                               'of': st.sampled_from(['same', 'other']), 'wc': wc, 'use': uses, 'v': v}),
+        st.fixed_dictionaries({'op': st.just('sloppy-flags'), 'of': st.sampled_from(['same', 'other']), 'pos': st.integers(0, 3),
+                               'i': st.integers(0, len(SLOPPY) - 1)}),
+        st.fixed_dictionaries({'op': st.just('anycast'), 'of': st.sampled_from(['same', 'parsed', 'other']), 'depth': st.integers(0, 31),
+                               'pfx': st.integers(0, 2 ** 30), 'use': uses, 'v': v}),
+        st.fixed_dictionaries({'op': st.just('edit-result'), 'how': st.sampled_from(EDITS), 'of': st.sampled_from(['same', 'same-raw', 'other']),
+                               'wc': wc, 'use': uses, 'v': v}),
+        st.just({'op': 'printed'}))
+    return st.fixed_dictionaries({'wc': wc, 'acc': _acc.map(bytes.hex), 'bounce': st.booleans(), 'test': st.booleans(),
+                                  'url': st.booleans(), 'history': st.lists(ops, min_size=1, max_size=4)})
+
+
 def classify(case):
     yield ('neg-wc' if case['wc'] < 0 else 'wc>=0')
     yield f"variant={int(case['bounce'])}{int(case['test'])}{int(case['url'])}"
     if 'pos' in case:
         yield 'pos=' + ('tag' if case['pos'] < 2 else 'crc' if case['pos'] >= 45 else 'body')
+    if 'depth' in case:
+        yield 'anycast-depth=' + ('1' if case['depth'] == 1 else '30' if case['depth'] == 30 else '2..29')
+    if 'history' in case:
+        yield f"history-len={len(case['history'])}"
+        for op in case['history']:
+            yield 'step=' + _step_kind(op)
+    if 'pos' not in case and all(c in HEXCH for c in refaddr.friendly(case['wc'], bytes.fromhex(case['acc']), case['bounce'],
+                                                                      case['test'], True)):
+        yield 'friendly-text-all-hex-digits'
 
 
 def nt(case):
-    return 'pos' in case or case['wc'] < 0 or not case['bounce'] or case['test'] or not case['url']
+    return ('pos' in case or 'depth' in case or bool(case.get('history')) or case['wc'] < 0 or not case['bounce'] or case['test']
+            or not case['url'])
 
 
 SUBCHECKS = [
     Sub('roundtrip-all-wc-x-variants', check_roundtrip, enum=enum_roundtrip, classify=classify, nontrivial=nt, shards=(4, 4),
-        exhaustive=True, note='all 256 workchains x 8 friendly variants, one account id each'),
+        exhaustive=True, note='all 256 workchains x 8 friendly variants, one account id each; plus designed addresses whose friendly '
+                              'text is all hex digits (24 quick / 400 thorough)'),
     Sub('roundtrip-random', check_roundtrip, strategy=strat_roundtrip, classify=classify, nontrivial=nt,
         n=(2000, 200000), shards=(8, 32)),
     Sub('substitution-all-48x63', check_subst, enum=enum_subst, classify=classify, nontrivial=nt, shards=(16, 32),
-        note='every single-character replacement of each enumerated address (6 quick / 400 thorough addresses)'),
+        note='every single-character replacement of each enumerated address (6+2 quick / 400+40 thorough addresses; the +n are '
+             'all-hex-digit texts)'),
     Sub('substitution-random', check_subst, strategy=strat_subst, classify=classify, nontrivial=nt,
         n=(3000, 100000), shards=(8, 32)),
+    Sub('origins-grid', check_origins, enum=enum_origins, classify=classify, nontrivial=nt, shards=(4, 8),
+        note='the same address through every origin; anycast depth 1..30 x boundary prefixes'),
+    Sub('origins-random', check_origins, strategy=strat_origins, classify=classify, nontrivial=nt, n=(150, 20000), shards=(4, 16)),
+    Sub('history-grid', check_history, enum=enum_history, classify=classify, nontrivial=nt, shards=(8, 16),
+        note='every single-step history (odd account lengths 0..40,48,64 x origin x use; odd workchains; rejected texts; sloppy flags; '
+             'edited parse results; anycast) and grow-then-shrink pairs; round trip of the valid address re-checked after every step'),
+    Sub('history-random', check_history, strategy=strat_history, classify=classify, nontrivial=nt, n=(250, 40000), shards=(8, 32)),
 ]
